@@ -59,6 +59,7 @@ TABLE = [
 # recorded findings: property, clause, feature substring, witness file name, runs
 FINDINGS = [
     ("C04", "decode-ok", "class=default-consumer-memory-limit", "finding-dictionary-bytes-vs-memory-limit.json", 12000),
+    ("C02", "decode-ok", "class=default-consumer-memory-limit", "finding-dictionary-bytes-vs-memory-limit.json", 12000),
 ]
 
 def sh(cmd, **kw):
